@@ -182,11 +182,8 @@ example : (runW [.F, .B, .B, .F, .F] ⟨2, 3⟩).1 = [some 2, some 4, some 3, no
 
 /-- **text pin**: the generated functions this property's hand-written model describes have, in
     /repo today, exactly the text the model was written from (`Soa/Model/Pinned.lean`) -/
-theorem bodies_pinned :
-    Soa.Extracted.bodies.filter (fun r => Soa.Model.scopeOf r == "C06") =
-    Soa.Model.pinned.filter (fun r => Soa.Model.scopeOf r == "C06") := by decide +kernel
+theorem bodies_pinned : Soa.Extracted.bodies_C06 = Soa.Model.pinned_C06 := rfl
 
-theorem bodies_pinned_nonempty :
-    (Soa.Model.pinned.filter (fun r => Soa.Model.scopeOf r == "C06")).length ≥ 4 := by decide +kernel
+theorem bodies_pinned_nonempty : Soa.Model.pinned_C06.length ≥ 4 := by decide
 
 end Soa.C06
